@@ -100,6 +100,7 @@ func (lf *linFn) canon(v ssa.Value) ssa.Value {
 		var loads []*ssa.UnOp
 		var fields []*ssa.Field
 		var convs []*ssa.Convert
+		var bins []*ssa.BinOp
 		for _, b := range lf.fn.Blocks {
 			for _, in := range b.Instrs {
 				switch x := in.(type) {
@@ -133,6 +134,22 @@ func (lf *linFn) canon(v ssa.Value) ssa.Value {
 						convs = append(convs, x)
 					}
 					lf.canonM[x] = rep
+				case *ssa.BinOp:
+					// a pure arithmetic expression evaluated twice on the same operands (no CSE in go/ssa)
+					switch x.Op {
+					case token.SHR, token.SHL, token.AND, token.OR, token.XOR, token.AND_NOT:
+						rep := ssa.Value(x)
+						for _, y := range bins {
+							if y.Op == x.Op && types.Identical(y.Type(), x.Type()) && sameOperand(lf, y.X, x.X) && sameOperand(lf, y.Y, x.Y) {
+								rep = y
+								break
+							}
+						}
+						if rep == ssa.Value(x) {
+							bins = append(bins, x)
+						}
+						lf.canonM[x] = rep
+					}
 				case *ssa.Field:
 					rep := ssa.Value(x)
 					for _, y := range fields {
@@ -155,6 +172,15 @@ func (lf *linFn) canon(v ssa.Value) ssa.Value {
 	return v
 }
 
+func sameOperand(lf *linFn, a, b ssa.Value) bool {
+	if lf.canon2(a) == lf.canon2(b) {
+		return true
+	}
+	ka, ok1 := intConst(a)
+	kb, ok2 := intConst(b)
+	return ok1 && ok2 && ka == kb
+}
+
 func (lf *linFn) canon2(v ssa.Value) ssa.Value {
 	if r, ok := lf.canonM[v]; ok {
 		return r
@@ -172,13 +198,26 @@ type linProver struct {
 }
 
 func isByteSlice(t types.Type) bool {
+	if allSlices {
+		if pt, ok := t.Underlying().(*types.Pointer); ok {
+			if _, isArr := pt.Elem().Underlying().(*types.Array); isArr {
+				return true
+			}
+		}
+	}
 	s, ok := t.Underlying().(*types.Slice)
 	if !ok {
 		return false
 	}
+	if allSlices {
+		return true
+	}
 	b, ok := s.Elem().Underlying().(*types.Basic)
 	return ok && b.Kind() == types.Uint8
 }
+
+// allSlices widens the obligations of R-GEN from []byte to every slice type (exploration only: `vsa plin -all`).
+var allSlices = false
 
 // lenForm: linear form of len(s).
 func (lf *linFn) lenForm(s ssa.Value, d int) *lin {
@@ -186,6 +225,11 @@ func (lf *linFn) lenForm(s ssa.Value, d int) *lin {
 		return linAtom(atom{s, true})
 	}
 	s = lf.canon(s)
+	if pt, ok := s.Type().Underlying().(*types.Pointer); ok {
+		if ar, ok := pt.Elem().Underlying().(*types.Array); ok {
+			return linConst(ar.Len())
+		}
+	}
 	switch x := s.(type) {
 	case *ssa.Slice:
 		var hi *lin
@@ -1047,6 +1091,13 @@ func (px *linProver) derivePre(fns []*ssa.Function) {
 
 // ruleGen: every access obligation of the selected functions is proved.
 func ruleGen(p *Prog, r *Report, rule string, sel func(f *ssa.Function) bool, excluded map[string]string, floor int) {
+	ruleGenX(p, r, rule, sel, excluded, nil, floor)
+}
+
+// ruleGenX: with a non-nil `claimed` set the rule is a regression rule — only the functions of the set are obligations
+// (each was proved when the set was frozen); any other function with an underivable access is reported as a "not claimed"
+// instance and decides nothing.
+func ruleGenX(p *Prog, r *Report, rule string, sel func(f *ssa.Function) bool, excluded map[string]string, claimed map[string]bool, floor int) {
 	px := newLinProver(p)
 	var fns []*ssa.Function
 	for _, f := range p.ModFns() {
@@ -1114,14 +1165,23 @@ func ruleGen(p *Prog, r *Report, rule string, sel func(f *ssa.Function) bool, ex
 			if n := p.CG().Nodes[f]; n != nil {
 				for _, e := range n.In {
 					if !selSet[e.Caller.Func] && p.inModule(fnPkg(e.Caller.Func)) && e.Caller.Func.Synthetic == "" {
+						if claimed != nil && !claimed[key] {
+							bad = &linObl{}
+							continue
+						}
 						r.Bad(rule, key, p.IPos(e.Site), fmt.Sprintf("%s relies on its caller for the length of its input (needs %v) but is called from %s, which is outside the analysed readers", p.FnName(f), pre, p.FnName(e.Caller.Func)))
 						bad = &linObl{}
 					}
 				}
 			}
-			if bad != nil {
+			if bad != nil && (claimed == nil || claimed[key]) {
 				continue
 			}
+		}
+		if bad != nil && claimed != nil && !claimed[key] {
+			r.Instance(rule+"(not claimed)", key+": needs an invariant that is established outside the function")
+			nFn--
+			continue
 		}
 		if bad == nil {
 			extra := ""
